@@ -42,7 +42,7 @@ type verifUrlScn struct {
 }
 
 func (s *verifUrlScn) key() string {
-	return fmt.Sprintf("%s|%s|%v|%s", s.Engine, s.Bid, s.Preserve, s.Rel)
+	return fmt.Sprintf("%s|%s|%v|%s|%s", s.Engine, s.Bid, s.Preserve, s.Rel, s.epType())
 }
 
 // verifUrlSplit projects a request target onto (rooted, path segments, raw query): "/a//b?x" ->
@@ -199,10 +199,11 @@ func verifUrlBoot(sc *verifUrlScn) (*verifUrlStack, error) {
 	if sc.Rel == "noslash" {
 		hc, mu = "health", "v1/models"
 	}
+	epType := sc.epType()
 	stk, err := verifBoot(sc.Engine, "priority", "auto", nil, func(cfg *config.Config) {
 		p := 100
 		cfg.Discovery.Static.Endpoints = []config.EndpointConfig{{
-			Name: "e1", URL: u.be.URL() + sc.Base, Type: "openai-compatible", Priority: &p,
+			Name: "e1", URL: u.be.URL() + sc.Base, Type: epType, Priority: &p,
 			HealthCheckURL: hc, ModelURL: mu,
 			CheckInterval: 5 * time.Second, CheckTimeout: 1 * time.Second, PreservePath: sc.Preserve,
 		}}
@@ -260,6 +261,19 @@ func verifUrlFlush(b *zzverif.Block, evs []zzverif.Ev) {
 		}
 		b.Emit(name, kv...)
 	}
+}
+
+// epType: a provider route is served by endpoints of that provider's kind; its aliases name the same kind
+func (sc *verifUrlScn) epType() string {
+	switch strings.Trim(strings.TrimPrefix(sc.Prefix, "/olla/"), "/") {
+	case "lmstudio", "lm-studio", "lm_studio":
+		return "lm-studio"
+	case "ollama":
+		return "ollama"
+	case "vllm":
+		return "vllm"
+	}
+	return "openai-compatible"
 }
 
 func verifUrlTarget(sc *verifUrlScn, decoy string) string {
